@@ -1,13 +1,16 @@
 """C14 -- card content builders put the right content under the right heading.
 Theorems: coq/props/C14.v over coq/card/{Ops,Render}.v.  Correspondence: add_table (dict and DataFrame, ragged, empty,
-None/float/multi-line/unicode cells), add_plot, add_metrics sequences, add_hyperparams with a stub model on nested and
-escaped target paths; plus: every multi-item call is re-run one item at a time and both cards must be identical."""
+None/float/multi-line/unicode cells), add_plot, add_metrics sequences, add_hyperparams with a stub model, add_model_plot with
+estimator_html_repr controlled from outside the source (generated HTML texts; real sklearn estimators with the text captured from the
+implementation's single call) on nested and escaped target paths; plus: every multi-item call is re-run one item at a time and both
+cards must be identical; plus: the set of code points `re` matches with \\s = the model's is_space."""
 import json
+import re
 
 import cardgen as G
 import common as C
 
-WEIGHTS = {"table": 26, "plot": 20, "metrics": 24, "hyper": 8, "add": 10, "delete": 5, "vis": 3, "fold": 4}
+WEIGHTS = {"table": 26, "plot": 20, "metrics": 24, "hyper": 8, "modelplot": 14, "add": 10, "delete": 5, "vis": 3, "fold": 4}
 MODE = {"render": True, "nodes": True, "format": True, "metrics": True}
 
 CORPUS = [
@@ -16,7 +19,23 @@ CORPUS = [
      ["plot", None, None, False, [["P1", "p1.png"], ["Q/P2", "p2.png"]]],
      ["metrics", "M/E", None, [["acc", 0.5], ["f1", "x"]]], ["metrics", "M/E", "d", [["acc", 0.75], ["auc", 1]]],
      ["hyper", "H \\/ P/params", None, [["C", 1.0], ["tol", None]]]],
+    # add_model_plot: default section of the skops template, an existing section with a subsection (kept), "" / None / text
+    # descriptions, class name once / twice / never / only after the indentation is removed, LF at the very end, CR LF
+    [["add", False, [["Model description/Training Procedure/Model Plot/Note", "n"]]],
+     ["modelplot", "Model description/Training Procedure/Model Plot", "The model",
+      '<div class="sk-top-container">\n   <p>\n\t\xa0x </p>\n\n</div>\n'],
+     ["modelplot", " Model description / Training Procedure/Model Plot ", "", '.sk-top-container {}\n <div class="sk-top-container">'],
+     ["modelplot", "A\\/B/ C", None, 'sk-top-\n  container\r\n\x1f\u2003x\n\u200b \n'],
+     ["modelplot", "", "d", ""], ["modelplot", "A\\/B", " ", "\n"], ["select", "A\\/B/C"]],
 ]
+
+# real estimators through the unpatched sklearn function; the HTML text fed to the model is the one the implementation received
+REAL = [
+    [["realplot", "Model description/Training Procedure/Model Plot", None, "logreg"]],
+    [["add", False, [["A/B/C", "x"]]], ["realplot", "A/B", "The pipeline", "pipeline"], ["select", "A/B"]],
+    [["realplot", "P", "", "columntransformer"], ["realplot", " P ", "again", "pipeline-ct"]],
+]
+REAL_MODE = {"nodes": True, "render": True}
 
 
 def split_batches(seq):
@@ -83,18 +102,76 @@ def dict_vs_dataframe(R):
             R.violation({"kind": "cell-not-value-text", "cols": rec["cols"]}, "a rendered cell is not the text of its value", {"dfcheck": rec})
 
 
+def real_model_plots(R):
+    """LogisticRegression / Pipeline / ColumnTransformer diagrams produced by the real estimator_html_repr (called once, by the
+    implementation; the wrapper only records what it returned)"""
+    results, bad = G.correspond(R, "C14real", [list(s) for s in REAL], REAL_MODE, shards=len(REAL), clip=400)
+    if results is None:
+        return
+    for sq, r in zip(REAL, results):
+        R.case(r["classes"] + [o[:3] for o in sq], nontrivial=all(c in ("ok", "sel") for c in r["classes"]))
+        for o, mo, cls in zip(sq, r["ops"], r["classes"]):
+            R.count(f"{o[0]}:{cls}")
+            if o[0] == "realplot":
+                html = mo[3]
+                R.count(f"real-html sk-top-container x{html.count('sk-top-container')}")
+                R.notes.setdefault("real_html", []).append(
+                    {"estimator": o[3], "chars": len(html), "indentation_runs": len(re.findall(r"\n\s+", html)),
+                     "class_name_occurrences": html.count("sk-top-container")})
+                if not html:
+                    R.obligation_broken("C14 real estimators", f"estimator_html_repr was not called for {o}")
+    for i, step, a, b in bad[:4]:
+        R.obligation_broken("correspondence C14/real estimators",
+                            f"sequence {i}, step {step}, op {REAL[i][step][:3] if 0 <= step < len(REAL[i]) else None}\n implementation: {a[:800]}\n model         : {b[:800]}")
+    if bad:
+        G.oracle_search(R, [list(REAL[i]) for i in sorted({b[0] for b in bad})], "C14 real estimators")
+
+
+def whitespace_set(R):
+    """Python's \\s for str patterns must be the model's is_space (coq/base/PyStr.v), over ALL code points"""
+    p = C.run_impl("impl_card.py", input_obj={"what": "whitespace"}, timeout=600)
+    if p.returncode != 0:
+        R.obligation_broken("C14 whitespace set", p.stderr.decode(errors="replace")[-1500:])
+        return
+    ws = json.loads(p.stdout)
+    body = "\n".join(["From Skv Require Import PyStr ModelPlot.", "Open Scope N_scope.",
+                      "Definition impl : list N := " + C.clist((str(c) for c in ws["re_sub"]), "N") + ".",
+                      "Eval vm_compute in (if list_eq_dec N.eq_dec (spaces_below 1114112) impl then 1 else 0)."])
+    try:
+        out = R.model_eval("C14_whitespace", body, timeout=600)
+    except C.CoqError as e:
+        R.obligation_broken("C14 whitespace set", e.out[-800:])
+        return
+    same = bool(re.search(r"=\s*1\b", out))
+    R.case({"whitespace_code_points": len(ws["re_sub"])}, nontrivial=True)
+    R.notes["whitespace_set"] = {"re_sub": len(ws["re_sub"]), "re_class==re_sub": ws["re_class"] == ws["re_sub"],
+                                 "isspace==re_sub": ws["isspace"] == ws["re_sub"], "model==re_sub": same}
+    if not same or ws["re_class"] != ws["re_sub"]:
+        R.obligation_broken("C14 whitespace set", f"the code points removed after a line feed by re.sub(r'\\n\\s+') are {ws['re_sub']}; "
+                                                  "the model's is_space differs")
+        G.oracle_search(R, [[["modelplot", "W", None, "a\n" + chr(c) + "b"]] for c in sorted(set(ws["re_sub"]) ^ set(ws["isspace"]))[:50]]
+                        + [[["modelplot", "W", None, "".join("a\n" + chr(c) for c in ws["re_sub"])]]], "C14 whitespace set")
+
+
 def run(R):
     R.assumptions += ["get_params(deep=True) is supplied by a stub model (its result is an input of the model)",
                       "DataFrame tables are abstracted to (column names, str() of the cells as iterated); pandas is used when importable",
-                      "cards are built from Card(model, template=None) through the public API"]
+                      "cards are built from Card(model, template=None) through the public API",
+                      "str(estimator_html_repr(model)) is an input of the model (OAddModelPlot's html): generated text returned by a wrapper bound to "
+                      "skops.card._model_card.estimator_html_repr in the runner process, or the text returned by the real sklearn function"]
     R.notes["rule"] = ("seeded random builder histories (tables: 0-3 columns, 0-3 rows, ragged, cells None/int/float/inf/bool/multi-line/unicode/'|', "
-                       "dict or DataFrame; plots with/without alt text and description, empty path; metric updates; hyperparameters) on nested, "
+                       "dict or DataFrame; plots with/without alt text and description, empty path; metric updates; hyperparameters; model plots over HTML texts "
+                       "with line feeds followed by all kinds of whitespace and look-alikes, CR LF, final LF, 0/1/2/split/doubled class names, non-BMP) on nested, "
                        "escaped and blank-padded paths; render(), every node incl. format() and the metrics dict compared after every operation; "
-                       "plus batch-vs-one-by-one comparison on the implementation")
+                       "plus batch-vs-one-by-one comparison on the implementation; real LogisticRegression/Pipeline/ColumnTransformer diagrams; "
+                       "the \\s code point set of `re` against is_space over all code points")
     R.notes["guards"] = ["C14_batch_*: stated for calls in which every item is accepted (a rejected item stops the call: C14_batch_stops)"]
     R.notes["not_modelled"] = ["PrettyTable's column layout (oracle `pretty`; its inputs are compared exactly)", "sklearn get_params (oracle)",
-                               "add_model_plot (needs sklearn's HTML repr), add_permutation_importances, add_fairlearn_metric_frame"]
+                               "sklearn's estimator_html_repr (oracle: add_model_plot's processing of its text is modelled)",
+                               "add_permutation_importances, add_fairlearn_metric_frame"]
     G.run_property(R, "C14", WEIGHTS, MODE, 10, 400, 4000, extra_check=batch_check, corpus=CORPUS)
+    real_model_plots(R)
+    whitespace_set(R)
     dict_vs_dataframe(R)
 
 
